@@ -12,6 +12,7 @@ import json, os, shutil, subprocess, sys, tempfile, xml.etree.ElementTree as ET
 HERE = os.path.dirname(os.path.dirname(os.path.abspath(__file__)))
 ID, WT = sys.argv[1], sys.argv[2]
 ALL = "--all" in sys.argv
+VIA_WT = "--via-worktree" in sys.argv
 seed = os.path.join(WT, "seed")
 demo = next((os.path.join(seed, n) for n in ("demo.py", "demo.sh") if os.path.exists(os.path.join(seed, n))), None)
 assert demo, "no demo"
@@ -23,9 +24,14 @@ def git(*a, cwd=WT): return subprocess.run(["git", *a], cwd=cwd, capture_output=
 res = {"id": ID}
 dirty = git("status", "--porcelain", "--", "src").stdout.strip()
 assert dirty, "worktree has no source change"
-git("stash", "push", "-q", "--", "src")
+# the stash is shared by all worktrees of a repository: revert / re-apply the saved patch instead
+patch_file = os.path.join(seed, "patch.diff")
+cur = git("diff", "--", "src").stdout
+assert cur.strip(), "no source change"
+open("/tmp/seedcheck_cur.diff", "w").write(cur)
+assert git("apply", "-R", "/tmp/seedcheck_cur.diff").returncode == 0
 rc_clean, out_clean = run_demo()
-git("stash", "pop", "-q")
+assert git("apply", "/tmp/seedcheck_cur.diff").returncode == 0
 rc_mut, out_mut = run_demo()
 res["demo_without_change"] = rc_clean; res["demo_with_change"] = rc_mut
 res["demo_ok"] = rc_clean == 0 and rc_mut != 0
@@ -45,15 +51,20 @@ shutil.copy(demo, os.path.join(dst, os.path.basename(demo)))
 meta = json.load(open(os.path.join(seed, "meta.json"))) if os.path.exists(os.path.join(seed, "meta.json")) else {}
 # run own check against /repo with the patch applied
 prop = meta.get("property", ID.split("-")[0])
-assert subprocess.run(["git", "-C", "/repo", "status", "--porcelain"], capture_output=True, text=True).stdout.strip() == "", "/repo not clean"
+assert VIA_WT or subprocess.run(["git", "-C", "/repo", "status", "--porcelain"], capture_output=True, text=True).stdout.strip() == "", "/repo not clean"
 env = dict(os.environ, VSDS_REPLAY_DIR="/tmp/vsds_seed_replays", VSDS_EVIDENCE_DIR="/tmp/vsds_seed_evidence")
 caught = {}
-try:
-    subprocess.run(["git", "-C", "/repo", "apply", os.path.join(dst, "patch.diff")], check=True)
-    p = subprocess.run([os.path.join(HERE, "check"), prop, "--tier", "quick"], capture_output=True, text=True, cwd=HERE, env=env)
+if VIA_WT:
+    # same code, but /repo stays untouched: the worktree (at /repo's HEAD + the change) is what the check runs against
+    p = subprocess.run([os.path.join(HERE, "check"), prop, "--tier", "quick"], capture_output=True, text=True, cwd=HERE, env=dict(env, VSDS_REPO=WT))
     caught[prop] = {"rc": p.returncode, "first": next((l for l in p.stdout.splitlines() if l.startswith("   - ")), p.stdout.strip().splitlines()[-1] if p.stdout.strip() else "")[:300]}
-finally:
-    subprocess.run(["git", "-C", "/repo", "checkout", "--", "."], check=True)
+else:
+    try:
+        subprocess.run(["git", "-C", "/repo", "apply", os.path.join(dst, "patch.diff")], check=True)
+        p = subprocess.run([os.path.join(HERE, "check"), prop, "--tier", "quick"], capture_output=True, text=True, cwd=HERE, env=env)
+        caught[prop] = {"rc": p.returncode, "first": next((l for l in p.stdout.splitlines() if l.startswith("   - ")), p.stdout.strip().splitlines()[-1] if p.stdout.strip() else "")[:300]}
+    finally:
+        subprocess.run(["git", "-C", "/repo", "checkout", "--", "."], check=True)
 if ALL:
     env2 = dict(env, VSDS_REPO=WT)
     for c in [f"C{i:02d}" for i in range(1, 21)]:
